@@ -2,6 +2,7 @@ package main
 
 import (
 	"fmt"
+	"go/constant"
 	"go/token"
 	"go/types"
 	"sort"
@@ -64,6 +65,8 @@ func checkC12(p *Prog, r *Result, tier string) {
 	r.Rule("C12.R2", "indexed and scan search report the same error classes: both evaluators can report unknown operator, casting and unknown key type errors, neither drops the error of compiling the pattern, neither reaches a panic on the operator argument", 3)
 	r.Rule("C12.R3", "one compression decision: the compressed suffix is read only by the file namer, the writer and the reader; the namer appends it exactly when Compress is set (finite evaluation)", 2)
 	r.Rule("C12.R4", "one naming function: the database root and the lower-case-names switch are each read by exactly one function, through which every path is built", 2)
+	r.Rule("C12.R5", "an empty constraint stays a constraint in both evaluators: wherever a function receives the constraining result set of an And refinement, the decision between constrained and unconstrained evaluation is a nil test of that parameter; its length is never compared with a constant to make that decision (And on an empty result must yield nothing whether or not the field is indexed)", 2)
+	checkConstraintTests(p, computeClosures(p), r, "C12.R5")
 	r.NotDecided = []string{"equality of observation traces across configurations", "integrity-check parity while writes are pending (excluded by the statement itself)"}
 	c := computeClosures(p)
 	a := p.A
@@ -451,6 +454,8 @@ func checkC05(p *Prog, r *Result, tier string) {
 	r.Rule("C05.R1", "atomic replace: no successful return of a handle entry point (or flusher iteration) leaves a persistent file (object or schema) that was opened for writing without a subsequent rename: persistent files are replaced by write-to-temporary + rename, never truncated in place", 1)
 	r.Rule("C05.R4", "the content is complete before the rename: the writer (and the compressor, when there is one) is closed on every path before the temporary file is renamed to its final name", 1)
 	r.Rule("C05.R5", "a temporary file left behind by a crash is harmless: its name is in the same directory as the final file and is not taken for an object file by the discovery function (finite evaluation; shared with C18.R4)", 2)
+	r.Rule("C05.R6", "a temporary file left behind by a crash never blocks a later write: every write-open of the package (they all belong to the write-to-temporary protocol, C05.R1) uses O_CREATE|O_TRUNC and without O_EXCL (or with os.Create), so a leftover of the same name is overwritten", 1)
+	checkTmpOpenFlags(p, computeClosures(p), r, "C05.R6")
 	r.Rule("C05.R2", "acknowledged => reflected (synchronous mode): shared with C04.R1 (commit before successful return) and C01.R1 (object written before successful return); re-evaluated here for the write entries", 2)
 	r.Rule("C05.R3", "control can notice content divergence: the schema control reads object content (or index+object replacement is a single rename)", 1)
 	r.NotDecided = []string{"enumeration of crash prefixes of every history (a runtime quantifier): only the three structural necessary conditions above are decided", "torn-write behaviour inside a single write system call"}
@@ -767,4 +772,143 @@ func blockReaches(from, to *ssa.BasicBlock) bool {
 		}
 	}
 	return false
+}
+
+// checkTmpOpenFlags: the writer of the write-to-temporary + rename protocol must survive a stale temporary.
+func checkTmpOpenFlags(p *Prog, c *Closures, r *Result, rule string) {
+	n := 0
+	for _, fn := range p.Funcs {
+		// every write-open in the package belongs to the write-to-temporary protocol (C05.R1 decides that)
+		for _, b := range fn.Blocks {
+			for _, in := range b.Instrs {
+				call, ok := in.(*ssa.Call)
+				if !ok {
+					continue
+				}
+				switch classifyExternal(call.Call.StaticCallee()) {
+				case xFsCreate:
+					n++
+					r.Report(rule, FuncName(fn), "open flags of the temporary file", Discharged, "os.Create truncates", p.Pos(in.Pos()), nil, true)
+				case xFsOpenFile:
+					if len(call.Call.Args) < 2 || !openFlagWrites(call.Call.Args[1]) {
+						continue
+					}
+					n++
+					cst, ok := call.Call.Args[1].(*ssa.Const)
+					if !ok || cst.Value == nil {
+						r.Report(rule, FuncName(fn), "open flags of the temporary file", Undecided, "the open flags are not a constant", p.Pos(in.Pos()), nil, true)
+						continue
+					}
+					fl, _ := constant.Int64Val(cst.Value)
+					const oCREATE, oEXCL, oTRUNC = 0x40, 0x80, 0x200
+					switch {
+					case fl&oEXCL != 0:
+						r.Report(rule, FuncName(fn), "open flags of the temporary file", Violated, "the temporary file is opened with O_EXCL: the leftover of a write interrupted by a crash makes every later write of that file (and so Repair's commit) fail with 'file exists'", p.Pos(in.Pos()), nil, true)
+					case fl&oCREATE == 0 || fl&oTRUNC == 0:
+						r.Report(rule, FuncName(fn), "open flags of the temporary file", Violated, "the temporary file is not opened with O_CREATE|O_TRUNC: a longer leftover of an interrupted write would survive as a tail of the new content", p.Pos(in.Pos()), nil, true)
+					default:
+						r.Report(rule, FuncName(fn), "open flags of the temporary file", Discharged, "", p.Pos(in.Pos()), nil, true)
+					}
+				}
+			}
+		}
+	}
+	if n == 0 {
+		r.Report(rule, "-", "open flags of the temporary file", Violated, "no function opens a file for writing", "", nil, true)
+	}
+}
+
+// checkConstraintTests: functions that take the constraining entry set ([]*indexedField parameter) and decide on it.
+func checkConstraintTests(p *Prog, c *Closures, r *Result, rule string) {
+	a := p.A
+	// constraint parameters: the []*indexedField parameters of the evaluators (functions that can report an unknown
+	// operator), and the parameters of helpers that are handed such a parameter unchanged
+	isEntrySet := func(t types.Type) bool {
+		sl, ok := t.Underlying().(*types.Slice)
+		return ok && named(sl.Elem()) == a.IndexedField
+	}
+	set := map[*ssa.Parameter]bool{}
+	var work []*ssa.Parameter
+	for _, fn := range p.Funcs {
+		if fn.Parent() != nil || !c.Of(fn).Has(EErrOperator) {
+			continue
+		}
+		for _, prm := range fn.Params {
+			if isEntrySet(prm.Type()) {
+				set[prm] = true
+				work = append(work, prm)
+			}
+		}
+	}
+	for len(work) > 0 {
+		prm := work[len(work)-1]
+		work = work[:len(work)-1]
+		if prm.Referrers() == nil {
+			continue
+		}
+		for _, rf := range *prm.Referrers() {
+			call, ok := rf.(ssa.CallInstruction)
+			if !ok {
+				continue
+			}
+			g := call.Common().StaticCallee()
+			if g == nil || g.Blocks == nil || !inSod(p, g) {
+				continue
+			}
+			for i, arg := range call.Common().Args {
+				if arg == ssa.Value(prm) && i < len(g.Params) && !set[g.Params[i]] {
+					set[g.Params[i]] = true
+					work = append(work, g.Params[i])
+				}
+			}
+		}
+	}
+	for _, fn := range p.Funcs {
+		for _, prm := range fn.Params {
+			if !set[prm] {
+				continue
+			}
+			refs := prm.Referrers()
+			if refs == nil {
+				continue
+			}
+			nilTests, lenTests := 0, 0
+			var where ssa.Instruction
+			for _, rf := range *refs {
+				switch u := rf.(type) {
+				case *ssa.BinOp:
+					if u.Op == token.EQL || u.Op == token.NEQ {
+						if c, ok := u.Y.(*ssa.Const); ok && c.IsNil() {
+							nilTests++
+						}
+						if c, ok := u.X.(*ssa.Const); ok && c.IsNil() {
+							nilTests++
+						}
+					}
+				case *ssa.Call:
+					if bi, ok := u.Call.Value.(*ssa.Builtin); ok && bi.Name() == "len" && u.Referrers() != nil {
+						for _, lr := range *u.Referrers() {
+							if bo, ok := lr.(*ssa.BinOp); ok {
+								_, cx := bo.X.(*ssa.Const)
+								_, cy := bo.Y.(*ssa.Const)
+								if cx || cy {
+									lenTests++
+									where = bo
+								}
+							}
+						}
+					}
+				}
+			}
+			if nilTests == 0 && lenTests == 0 {
+				continue // only passes it on / iterates
+			}
+			construct := "constraint parameter decided by a nil test"
+			if lenTests > 0 {
+				r.Report(rule, FuncName(fn), construct, Violated, "the length of the constraining set is compared with a constant: an empty (non-nil) constraint, i.e. And on an empty result, would be evaluated as if there were no constraint", p.Pos(where.Pos()), nil, true)
+			} else {
+				r.Report(rule, FuncName(fn), construct, Discharged, "", p.Pos(fn.Pos()), nil, true)
+			}
+		}
+	}
 }
